@@ -63,7 +63,8 @@ def convMag (ξ η ω χ : ℝ) (ell : Ellipsoid) : ℝ :=
 theorem psf_unfold (ξ η lat lon cm χ : ℝ) (ell : Ellipsoid) (prj : Projection) :
     psfandgridconv ξ η lat lon cm χ ell prj =
       (psfExpr ξ η (PyR.radians lat) (PyR.radians (lon - cm)) χ ell prj,
-       if (cm > lon ∧ PyR.radians lat < 0) ∨ (cm < lon ∧ PyR.radians lat > 0)
+       if (Real.sin (PyR.radians (lon - cm)) < 0 ∧ PyR.radians lat < 0) ∨
+          (Real.sin (PyR.radians (lon - cm)) > 0 ∧ PyR.radians lat > 0)
        then -convMag ξ η (PyR.radians (lon - cm)) χ ell
        else convMag ξ η (PyR.radians (lon - cm)) χ ell) := by
   have hp : pS (alpha_coeff ell) ξ η = 1 + 2*1*(alpha_coeff ell).1 * Real.cos (2*1*ξ) * Real.cosh (2*1*η)
@@ -346,20 +347,81 @@ theorem radians_pos_iff (x : ℝ) : PyR.radians x > 0 ↔ x > 0 := by
     exact absurd h (not_lt.mpr (mul_nonpos_of_nonpos_of_nonneg hx this.le))
   · intro h; exact mul_pos h this
 
+/-- the side of the central meridian, as the code decides it: the sign of `sin (lon − cm)`, i.e. the
+longitude difference taken the short way round -/
+def westOfCM (lon cm : ℝ) : Prop := Real.sin (PyR.radians (lon - cm)) < 0
+def eastOfCM (lon cm : ℝ) : Prop := Real.sin (PyR.radians (lon - cm)) > 0
+
+/-- inside the strip `|lon − cm| < 180` "west" is `lon < cm` and "east" is `cm < lon` -/
+theorem west_east_in_strip (lon cm : ℝ) (h : |lon - cm| < 180) :
+    (westOfCM lon cm ↔ lon < cm) ∧ (eastOfCM lon cm ↔ cm < lon) := by
+  have hp := Real.pi_pos
+  obtain ⟨h1, h2⟩ := abs_lt.mp h
+  have hr : PyR.radians (lon - cm) = (lon - cm) * (Real.pi / 180) := radians_def _
+  unfold westOfCM eastOfCM
+  rw [hr]
+  constructor
+  · constructor
+    · intro hs
+      by_contra hc
+      rw [not_lt] at hc
+      have h0 : 0 ≤ (lon - cm) * (Real.pi / 180) := mul_nonneg (by linarith) (by positivity)
+      have hpi : (lon - cm) * (Real.pi / 180) ≤ Real.pi := by nlinarith
+      exact absurd hs (not_lt.mpr (Real.sin_nonneg_of_nonneg_of_le_pi h0 hpi))
+    · intro hl
+      apply Real.sin_neg_of_neg_of_neg_pi_lt
+      · exact mul_neg_of_neg_of_pos (by linarith) (by positivity)
+      · nlinarith
+  · constructor
+    · intro hs
+      by_contra hc
+      rw [not_lt] at hc
+      have h0 : (lon - cm) * (Real.pi / 180) ≤ 0 := mul_nonpos_of_nonpos_of_nonneg (by linarith) (by positivity)
+      have hpi : -Real.pi ≤ (lon - cm) * (Real.pi / 180) := by nlinarith
+      exact absurd hs (not_lt.mpr (Real.sin_nonpos_of_nonpos_of_neg_pi_le h0 hpi))
+    · intro hl
+      apply Real.sin_pos_of_pos_of_lt_pi
+      · exact mul_pos (by linarith) (by positivity)
+      · nlinarith
+
+/-- across the antimeridian (after fix 89c4235): a longitude written 360° lower than the one the central
+meridian is measured against (zone 60, `lon ∈ [−180, −150)` against `cm = 177`) is EAST of the central
+meridian, and one written 360° higher is WEST — the side the point is on, not the order of the numbers -/
+theorem side_across_antimeridian (lon cm : ℝ) :
+    (-360 < lon - cm → lon - cm < -180 → eastOfCM lon cm) ∧
+    (180 < lon - cm → lon - cm < 360 → westOfCM lon cm) := by
+  have hp := Real.pi_pos
+  have hr : PyR.radians (lon - cm) = (lon - cm) * (Real.pi / 180) := radians_def _
+  unfold westOfCM eastOfCM
+  rw [hr]
+  constructor
+  · intro h1 h2
+    have e : (lon - cm) * (Real.pi / 180) = (lon - cm + 360) * (Real.pi / 180) - 2 * Real.pi := by ring
+    rw [e, Real.sin_sub_two_pi]
+    apply Real.sin_pos_of_pos_of_lt_pi
+    · exact mul_pos (by linarith) (by positivity)
+    · nlinarith
+  · intro h1 h2
+    have e : (lon - cm) * (Real.pi / 180) = (lon - cm - 360) * (Real.pi / 180) + 2 * Real.pi := by ring
+    rw [e, Real.sin_add_two_pi]
+    apply Real.sin_neg_of_neg_of_neg_pi_lt
+    · exact mul_neg_of_neg_of_pos (by linarith) (by positivity)
+    · nlinarith
+
 /-- C10.5 the code's sign rule (with `lat` in degrees, as passed): the convergence is `−|γ|` exactly
 in the quadrants (west of CM, south) and (east of CM, north), `+|γ|` otherwise, where
-`|γ| = convMag ≥ 0`. -/
+`|γ| = convMag ≥ 0` and the side of the central meridian is that of `sin (lon − cm)`. -/
 theorem conv_sign (ξ η lat lon cm χ : ℝ) (ell : Ellipsoid) (prj : Projection) :
-    (((cm > lon ∧ lat < 0) ∨ (cm < lon ∧ lat > 0)) →
+    (((westOfCM lon cm ∧ lat < 0) ∨ (eastOfCM lon cm ∧ lat > 0)) →
       (psfandgridconv ξ η lat lon cm χ ell prj).2 = -convMag ξ η (PyR.radians (lon - cm)) χ ell ∧
       (psfandgridconv ξ η lat lon cm χ ell prj).2 ≤ 0) ∧
-    (¬ ((cm > lon ∧ lat < 0) ∨ (cm < lon ∧ lat > 0)) →
+    (¬ ((westOfCM lon cm ∧ lat < 0) ∨ (eastOfCM lon cm ∧ lat > 0)) →
       (psfandgridconv ξ η lat lon cm χ ell prj).2 = convMag ξ η (PyR.radians (lon - cm)) χ ell ∧
       0 ≤ (psfandgridconv ξ η lat lon cm χ ell prj).2) ∧
     |(psfandgridconv ξ η lat lon cm χ ell prj).2| = convMag ξ η (PyR.radians (lon - cm)) χ ell := by
   have hm := convMag_nonneg ξ η (PyR.radians (lon - cm)) χ ell
   rw [psf_unfold]
-  simp only [radians_neg_iff, radians_pos_iff]
+  simp only [radians_neg_iff, radians_pos_iff, westOfCM, eastOfCM]
   refine ⟨fun h => ?_, fun h => ?_, ?_⟩
   · rw [if_pos h]; exact ⟨rfl, by linarith⟩
   · rw [if_neg h]; exact ⟨rfl, hm⟩
@@ -367,13 +429,24 @@ theorem conv_sign (ξ η lat lon cm χ : ℝ) (ell : Ellipsoid) (prj : Projectio
     · rw [abs_neg, abs_of_nonneg hm]
     · rw [abs_of_nonneg hm]
 
+/-- the rule in the familiar form inside the strip `|lon − cm| < 180` -/
+theorem conv_sign_in_strip (ξ η lat lon cm χ : ℝ) (ell : Ellipsoid) (prj : Projection) (hs : |lon - cm| < 180) :
+    (((cm > lon ∧ lat < 0) ∨ (cm < lon ∧ lat > 0)) →
+      (psfandgridconv ξ η lat lon cm χ ell prj).2 = -convMag ξ η (PyR.radians (lon - cm)) χ ell) ∧
+    (¬ ((cm > lon ∧ lat < 0) ∨ (cm < lon ∧ lat > 0)) →
+      (psfandgridconv ξ η lat lon cm χ ell prj).2 = convMag ξ η (PyR.radians (lon - cm)) χ ell) := by
+  obtain ⟨hw, he⟩ := west_east_in_strip lon cm hs
+  obtain ⟨h1, h2, _⟩ := conv_sign ξ η lat lon cm χ ell prj
+  rw [hw, he] at h1 h2
+  exact ⟨fun h => (h1 h).1, fun h => (h2 h).1⟩
+
 theorem conv_neg_iff (ξ η lat lon cm χ : ℝ) (ell : Ellipsoid) (prj : Projection) :
     (psfandgridconv ξ η lat lon cm χ ell prj).2 < 0 ↔
-      ((cm > lon ∧ lat < 0) ∨ (cm < lon ∧ lat > 0)) ∧
+      ((westOfCM lon cm ∧ lat < 0) ∨ (eastOfCM lon cm ∧ lat > 0)) ∧
         0 < convMag ξ η (PyR.radians (lon - cm)) χ ell := by
   obtain ⟨h1, h2, _⟩ := conv_sign ξ η lat lon cm χ ell prj
   have hm := convMag_nonneg ξ η (PyR.radians (lon - cm)) χ ell
-  by_cases hc : (cm > lon ∧ lat < 0) ∨ (cm < lon ∧ lat > 0)
+  by_cases hc : (westOfCM lon cm ∧ lat < 0) ∨ (eastOfCM lon cm ∧ lat > 0)
   · rw [(h1 hc).1]; constructor
     · intro h; exact ⟨hc, by linarith⟩
     · intro h; linarith [h.2]
@@ -401,9 +474,9 @@ theorem convMag_neg_lon (ξ η ω χ : ℝ) (ell : Ellipsoid) :
   rw [pS_neg_eta, qS_neg_eta, Real.tan_neg, neg_div, abs_neg, mul_neg, abs_neg]
 
 /-- convergence is odd under reflection in the equator (`φ, χ, ξ′ ↦ −φ, −χ, −ξ′`) off the equator
-and off the central meridian -/
+and off the central meridian (and its antipodal meridian) -/
 theorem conv_odd_in_lat (ξ η lat lon cm χ : ℝ) (ell : Ellipsoid) (prj : Projection)
-    (hlat : lat ≠ 0) (hlon : lon ≠ cm) :
+    (hlat : lat ≠ 0) (hlon : Real.sin (PyR.radians (lon - cm)) ≠ 0) :
     (psfandgridconv (-ξ) η (-lat) lon cm (-χ) ell prj).2
       = -(psfandgridconv ξ η lat lon cm χ ell prj).2 := by
   simp only [psf_unfold, convMag_neg_lat, radians_neg_iff, radians_pos_iff]
@@ -421,12 +494,12 @@ theorem conv_odd_in_lat (ξ η lat lon cm χ : ℝ) (ell : Ellipsoid) (prj : Pro
 
 /-- convergence is odd under reflection in the central meridian (`ω, η′ ↦ −ω, −η′`) -/
 theorem conv_odd_in_lon (ξ η lat lon cm χ : ℝ) (ell : Ellipsoid) (prj : Projection)
-    (hlat : lat ≠ 0) (hlon : lon ≠ cm) :
+    (hlat : lat ≠ 0) (hlon : Real.sin (PyR.radians (lon - cm)) ≠ 0) :
     (psfandgridconv ξ (-η) lat (2 * cm - lon) cm χ ell prj).2
       = -(psfandgridconv ξ η lat lon cm χ ell prj).2 := by
   have e : PyR.radians (2 * cm - lon - cm) = -PyR.radians (lon - cm) := by
     simp only [radians_def]; ring
-  simp only [psf_unfold, e, convMag_neg_lon, radians_neg_iff, radians_pos_iff]
+  simp only [psf_unfold, e, convMag_neg_lon, radians_neg_iff, radians_pos_iff, Real.sin_neg]
   rcases lt_or_gt_of_ne hlat with h | h <;> rcases lt_or_gt_of_ne hlon with h' | h'
   all_goals
     split_ifs with c1 c2 c2
